@@ -17,6 +17,8 @@ pub struct Corpus {
     pub ie_from: Vec<String>,
     pub gen_rules: Vec<String>,
     pub gen_pairs: Vec<(String, String)>,
+    /// generated rule text -> words assembled from the rule's own elements
+    pub directed: HashMap<String, Vec<String>>,
 }
 
 pub fn load_corpus() -> Corpus {
@@ -27,10 +29,15 @@ pub fn load_corpus() -> Corpus {
         name: g["name"].as_str().unwrap().into(), rule: strs(&g["rule"]), description: g["description"].as_str().unwrap().into() }).collect()).collect();
     let pool: Vec<String> = std::env::var("VERIF_RULEPOOL").ok().map(|ps| ps.split(':').filter_map(|p| std::fs::read_to_string(p).ok()).collect::<Vec<_>>().join("\n"))
         .map(|s| s.lines().filter(|l| !l.trim().is_empty()).map(|l| l.to_string()).collect()).unwrap_or_default();
+    // a pool line is `rule` or `rule <tab> rule2`, then a unit separator and the words assembled from the rule's own elements
+    let mut directed: HashMap<String, Vec<String>> = HashMap::new();
+    let pool: Vec<String> = pool.iter().map(|l| match l.split_once('\u{1f}') {
+        Some((r, ws)) => { let ws: Vec<String> = ws.split(' ').filter(|w| !w.is_empty()).map(|w| w.to_string()).collect(); for part in r.split('\t') { directed.insert(part.to_string(), ws.clone()); } r.to_string() }
+        None => l.clone() }).collect();
     let gen_rules: Vec<String> = pool.iter().filter(|l| !l.contains('\t')).cloned().collect();
     let gen_pairs: Vec<(String, String)> = pool.iter().filter_map(|l| l.split_once('\t').map(|(a, b)| (a.to_string(), b.to_string()))).collect();
     Corpus { test_rules: strs(&c["test_rules"]), test_words: strs(&c["test_words"]), ie, ie_words: strs(&c["ie_words"]),
-             ie_into: strs(&c["ie_alias"]["into"]), ie_from: strs(&c["ie_alias"]["from"]), gen_rules, gen_pairs }
+             ie_into: strs(&c["ie_alias"]["into"]), ie_from: strs(&c["ie_alias"]["from"]), gen_rules, gen_pairs, directed }
 }
 
 pub struct Intern { words: HashMap<String, i64>, errs: HashMap<String, i64> }
@@ -97,10 +104,12 @@ pub fn gen_item(c: &Corpus, rng: &mut Rng) -> Item {
             if rng.chance(1, 8) { rules.push("".into()); }
             groups.push(RuleGroup { name: format!("g{gi}"), rule: rules, description: String::new() });
         }
+        let mut pool: Vec<String> = c.test_words.clone();
+        for g in &groups { for r in &g.rule { if let Some(ws) = c.directed.get(r) { for _ in 0..6 { pool.extend(ws.iter().cloned()); } } } }
         let mut lines = Vec::new();
         for _ in 0..(2 + rng.below(5)) {
-            let mut l = rng.pick(&c.test_words).clone();
-            if rng.chance(1, 4) { l = format!("{} {}", l, rng.pick(&c.test_words)); }
+            let mut l = rng.pick(&pool).clone();
+            if rng.chance(1, 4) { l = format!("{} {}", l, rng.pick(&pool)); }
             lines.push(l);
         }
         // notation twins: the same word typed in americanist and in IPA notation (equal sounds, different spelling of the result)
@@ -237,6 +246,7 @@ fn pick_rules(c: &Corpus, rng: &mut Rng, n: usize) -> (Vec<String>, Vec<String>,
         rules[i] = a; rules[j] = b;
         words = (0..40).map(|_| crate::laws::gen_word_text(rng, true)).collect();
     }
+    for r in &rules { if let Some(ws) = c.directed.get(r) { for _ in 0..6 { words.extend(ws.iter().cloned()); } } }
     (rules, vec![], words)
 }
 
@@ -377,6 +387,23 @@ pub fn replay_schedules() {
                     else { sum.mismatch(json!({"kind": "c11", "groups": groups.iter().map(|g| g.rule.clone()).collect::<Vec<_>>(), "lines": lines, "perm": perm, "mask": mask,
                                                "full": format!("{:?}", full), "expected_full": format!("{:?}", e_full), "permuted": format!("{:?}", pfull), "expected_permuted": format!("{:?}", e_perm),
                                                "sub": format!("{:?}", sfull), "expected_sub": format!("{:?}", e_sub), "multi": multi_case})); }
+                    // every ordered pair of a handful of words (those assembled from the rules' own elements among them): whatever a word leaves behind
+                    // in the interpreter must not reach the next one, whichever word that is
+                    if rng.chance(1, 3) {
+                        let pool: Vec<String> = (0..6).map(|_| rng.pick(&words).clone()).filter(|w| !w.contains(' ')).collect();
+                        let single: Vec<Result<Vec<String>, String>> = pool.iter().map(|w| run_keyed(&groups, &[w.clone()], &into)).collect();
+                        if single.iter().all(|r| r.is_ok()) {
+                            for a in 0..pool.len() { for b in 0..pool.len() {
+                                if a == b { continue; }
+                                let both = run_keyed(&groups, &[pool[a].clone(), pool[b].clone()], &into);
+                                if budgeted(&both) { continue; }
+                                sum.vectors += 1; sum.count("ordered_pairs", 1);
+                                let exp: Result<Vec<String>, String> = Ok(vec![single[a].as_ref().unwrap()[0].clone(), single[b].as_ref().unwrap()[0].clone()]);
+                                if both == exp { sum.agree += 1; }
+                                else { sum.mismatch(json!({"kind": "c11-pair", "groups": groups.iter().map(|g| g.rule.clone()).collect::<Vec<_>>(), "lines": [pool[a], pool[b]], "together": format!("{:?}", both), "alone": format!("{:?}", exp)})); }
+                            } }
+                        }
+                    }
                 }
                 _ => {
                     let (rules, into, words) = pick_rules(&c, &mut rng, n);
